@@ -56,16 +56,26 @@ ScriptsTwo == {<<Add, Add, Rm(0)>>, <<Add, Clear, Add>>}
 (* capacity 1: every add after the first finds the table full until a removal *)
 ScriptsCap1 == { <<Add, Add, Rm(0), Add>>, <<Add, Clear, Add, Add>>, <<Add, RmIf({0}), Add, Rm(2)>> }
 
-(* capacity 3: the reader's (seal) channel 2 sits in the LAST slot; removing a lower-indexed other
+(* capacity 4: the reader's (seal) channel 2 sits in the LAST slot; removing a lower-indexed other
    channel makes swap_remove move it into the freed slot (its cached hint index goes stale) *)
 ScriptsMove == {
   <<Add, Add, Add, Rm(0)>>,             \* [0,1,2] -> [2,1]
   <<Add, Add, Add, RmIf({0})>>,
   <<Add, Add, Add, RmIf({0, 1})>>,      \* [0,1,2] -> [2]
   <<Add, Add, Add, Rm(0), Add>>,        \* ... and an add afterwards: [2,1,3]
-  <<Add, Add, Add, Rm(1), Rm(0)>>       \* [0,2] -> [2]
+  <<Add, Add, Add, Rm(1), Rm(0)>>,      \* [0,2] -> [2]
+  \* an OPEN channel (1) that is not last is removed: the last open channel (3) takes its slot,
+  \* which a reader's open context still has as its lookup hint
+  <<Add, Add, Add, Add, Rm(1)>>,        \* [0,1,2,3] -> [0,3,2]
+  <<Add, Add, Add, Add, RmIf({1})>>,
+  \* removal of an ABSENT id (already removed) from a non-empty table, then a call that flips the
+  \* lists, then the removal of the reader's channel
+  <<Add, Add, Rm(1), Rm(1), Add, Rm(0)>>,
+  <<Add, Add, Rm(0), Rm(0), Add, Rm(1)>>
 }
 
+ScriptsAbsent == {<<Add, Add, Rm(1), Rm(1), Add, Rm(0)>>}
+ScriptsOpenMove == {<<Add, Add, Add, Add, Rm(1)>>}
 ScriptsMoveOne == {<<Add, Add, Add, Rm(0)>>}
 ScriptsBump == {<<Add, Rm(0)>>}
 ScriptsOne == {<<Add, Add, Rm(0)>>}
